@@ -6,6 +6,7 @@ collections.ChainMap (trusted) they imply the property by induction over the
 history of mutator/derivation calls, see `EXPLANATION`."""
 
 import ast
+from .. import symex
 from ..core import (AnalysisError, short, unparse, iter_own, call_name, call_recv, kwarg,
                     is_self_attr, attr_chain, atomic_facts, always_exits, parents,
                     enclosing_stmt)
@@ -305,6 +306,60 @@ def run(ctx):
                        'mixes kinds %s: a %s is looked up / stored under another kind' %
                        (sorted(ks), '/'.join(sorted(ks))),
                        construct='%s: %s' % (name, short(unit)), trivial=triv)
+
+    # ---- M10: a refused modification leaves the database unchanged
+    ctx.rule('M10', 'validate before write: on every path of a database method that ends in an explicit raise '
+                    '(duplicate category, reserved name, frozen database) nothing of the database has been '
+                    'written yet -- a refused modification never changes the answers', 3)
+
+    def _writes_self(st):
+        if isinstance(st, (ast.Assign, ast.AugAssign, ast.AnnAssign)):
+            tgs = st.targets if isinstance(st, ast.Assign) else [st.target]
+            for t in tgs:
+                for tt in (t.elts if isinstance(t, (ast.Tuple, ast.List)) else [t]):
+                    r_ = tt
+                    while isinstance(r_, (ast.Subscript, ast.Attribute)) and not is_self_attr(r_):
+                        r_ = r_.value
+                    if is_self_attr(r_) and r_.attr != '_autogen_category_counter':
+                        return True
+        if isinstance(st, ast.Expr) and isinstance(st.value, ast.Call):
+            c = st.value
+            rec = call_recv(c)
+            if call_name(c) in MUTATORS and rec is not None and any(is_self_attr(x) for x in ast.walk(rec)):
+                return True
+            if isinstance(c.func, ast.Name) and any(is_self_attr(a) for a in c.args):
+                return True         # a local callable handed an attribute of the database
+            if is_self_attr(c.func) and c.func.attr in ('add_context_category', 'set_unknown_macro_spec',
+                                                         'set_unknown_environment_spec',
+                                                         'set_unknown_specials_spec'):
+                return True
+        return False
+    for name, fn in sorted(meths.items()):
+        if name == '__init__' or not any(isinstance(x, ast.Raise) and x.exc is not None for x in iter_own(fn)):
+            continue
+        if not any(_writes_self(st) for st in ast.walk(fn) if isinstance(st, ast.stmt)):
+            continue
+        try:
+            cases = symex.Walker(want_exits=True, trace=True, stmt_sink=_writes_self).run(fn)
+        except symex.TooManyPaths as e:
+            ctx.unknown('M10', m, fn, str(e), construct=name + ': validate before write')
+            continue
+        bad = None
+        n_r = 0
+        for cs in cases:
+            if cs.kind != 'raise' or cs.node.exc is None:
+                continue
+            n_r += 1
+            wr = [t_[0] for t_ in cs.env.get('#trace', ()) if isinstance(t_[0], ast.stmt) and _writes_self(t_[0])]
+            if wr and bad is None:
+                bad = (cs, wr[0])
+        ctx.decide('M10', bad is None, m, bad[0].node if bad else fn,
+                   '%s: nothing is written before any of its %d refusing exit(s)' % (name, n_r),
+                   '%s: the refusal `%s` is reached after the database was already written (`%s`): the call raises '
+                   'but the stored definitions / category order have changed, so lookups, test_for_specials() and '
+                   'filtered_context() answer from the refused data'
+                   % (name, short(bad[0].node, 70) if bad else '', short(bad[1], 70) if bad else ''),
+                   construct=name + ': validate before write')
 
     ctx.assume('collections.ChainMap semantics: lookup returns the value of the first map in '
                '.maps containing the key; new_child(m) prepends m')
@@ -851,7 +906,7 @@ def _check_filtered(ctx, m, fn):
     loop = loops[0]
     if not is_self_attr(loop.iter, 'category_list'):
         # what the loop iterates over, per structural path, with locals substituted
-        from .. import symex
+        pass
         try:
             its = symex.Walker(is_sink=lambda n: n is loop.iter, sink_types=(type(loop.iter),)).run(fn)
         except symex.TooManyPaths:
@@ -878,7 +933,7 @@ def _check_filtered(ctx, m, fn):
     # the skip tests
     want = {'keep_categories': ast.NotIn, 'exclude_categories': ast.In}
     seen = {}
-    from .. import symex
+    pass
     try:
         reach = symex.Walker(is_sink=lambda c: call_name(c) == 'add_context_category').run_block(loop.body)
     except symex.TooManyPaths:
@@ -904,22 +959,33 @@ def _check_filtered(ctx, m, fn):
     # add call in the loop: appended (no placement keyword), first arg is the loop var
     adds = [c for c in ast.walk(loop) if isinstance(c, ast.Call)
             and call_name(c) == 'add_context_category']
+    try:
+        add_cases = symex.Walker(is_sink=lambda c_: call_name(c_) == 'add_context_category').run_block(loop.body)
+    except symex.TooManyPaths:
+        add_cases = []
     for c in adds:
         placement = [k.arg for k in c.keywords if k.arg in ('prepend', 'insert_before',
                                                             'insert_after')]
-        a0 = c.args[0] if c.args else kwarg(c, 'category')
         # the category keeps its name; a reserved (automatically generated) name cannot be given
-        # explicitly, so it is passed as None (= "name it automatically") under a startswith test
-        guarded = False
-        if isinstance(a0, ast.IfExp):
-            t_ = a0.test
-            neg = isinstance(t_, ast.UnaryOp) and isinstance(t_.op, ast.Not)
-            tc = t_.operand if neg else t_
-            is_sw = isinstance(tc, ast.Call) and call_name(tc) == 'startswith' and \
-                isinstance(call_recv(tc), ast.Name) and call_recv(tc).id == cat
-            keep, auto = (a0.body, a0.orelse) if neg else (a0.orelse, a0.body)
-            guarded = is_sw and isinstance(keep, ast.Name) and keep.id == cat and \
-                isinstance(auto, ast.Constant) and auto.value is None
+        # explicitly, so it is passed as None (= "name it automatically") under a startswith test.
+        # Decided per path on the substituted first argument (conditional expression, if/else
+        # assigning a local, or the loop variable itself).
+        plain = named = auto = other = 0
+        for cs in [x for x in add_cases if x.node is c]:
+            a0s = cs.sub.args[0] if cs.sub.args else kwarg(cs.sub, 'category')
+            for extra, v in (symex._split_ifexp(a0s) if a0s is not None else [([], None)]):
+                facts = symex.facts_of(list(cs.conds) + list(extra))
+                sw = [pol for (txt, pol) in facts if txt.startswith(cat + '.startswith(')]
+                if isinstance(v, ast.Name) and v.id == cat and not sw:
+                    plain += 1
+                elif isinstance(v, ast.Name) and v.id == cat and sw == [False]:
+                    named += 1
+                elif isinstance(v, ast.Constant) and v.value is None and sw == [True]:
+                    auto += 1
+                else:
+                    other += 1
+        guarded = named > 0 and auto > 0 and plain == 0 and other == 0
+        a0 = ast.Name(id=cat, ctx=ast.Load()) if (plain > 0 and named == auto == other == 0) else None
         first_ok = (isinstance(a0, ast.Name) and a0.id == cat) or guarded
         ctx.decide('M4b', bool(first_ok) and not placement, m, c,
                    'category re-added under its own name, appended in iteration order',
@@ -943,14 +1009,29 @@ def _check_filtered(ctx, m, fn):
 
 
 def _check_lookup(ctx, m, fn, kind, unk):
-    from .. import symex
+    pass
     in_try, in_handler = [], []
-    for cs in symex.return_cases(fn):
+    hstmts = {}
+    for t_ in iter_own(fn):
+        if isinstance(t_, ast.Try):
+            for h_ in t_.handlers:
+                for st_ in h_.body:
+                    hstmts[st_] = h_
+    try:
+        rcases = symex.Walker(want_returns=True, trace=True, stmt_sink=lambda s_: s_ in hstmts).run(fn)
+    except symex.TooManyPaths:
+        rcases = []
+    via = {}
+    for cs in rcases:
         if isinstance(cs.sub, ast.Constant) and cs.sub.value is None and cs.node.value is None:
             continue
-        ps = list(parents(cs.node))
-        if any(isinstance(p, ast.ExceptHandler) for p in ps):
+        # a path belongs to the handler when one of the handler's statements was executed on it
+        # (the return itself, or an assignment to the local that is returned after the try)
+        hs = [hstmts[t_[0]] for t_ in cs.env.get('#trace', ()) if t_[0] in hstmts] + \
+            [p for p in parents(cs.node) if isinstance(p, ast.ExceptHandler)]
+        if hs:
             in_handler.append(cs)
+            via[id(cs)] = hs[0]
         else:
             in_try.append(cs)
     for cs in in_try:
@@ -974,7 +1055,7 @@ def _check_lookup(ctx, m, fn, kind, unk):
     for cs in in_handler:
         r = cs.node
         ok = is_self_attr(cs.sub, unk)
-        h = [p for p in parents(r) if isinstance(p, ast.ExceptHandler)][0]
+        h = via[id(cs)]
         hk = h.type is not None and unparse(h.type) == 'KeyError'
         ctx.decide('M5', ok and hk, m, r, 'falls back to self.%s on KeyError' % unk,
                    'fallback of %s is not self.%s under `except KeyError`' % (fn.name, unk),
@@ -1050,37 +1131,83 @@ def _check_test_for_specials(ctx, m, fn):
         ctx.unknown('M6', m, fn, 'outer loop is not directly over self.category_list')
         return
     o = outer[0]
-    early = [n for n in ast.walk(o) if isinstance(n, (ast.Break, ast.Return, ast.Continue))]
-    ctx.decide('M6', not early, m, o, 'no break/return/continue inside the scan',
+    inner = [n for n in ast.walk(o) if isinstance(n, ast.For) and n is not o]
+    early = [n for n in ast.walk(o) if isinstance(n, (ast.Break, ast.Return))]
+    # a `continue` only skips one candidate when its loop is the candidate loop; directly in the
+    # category loop it skips a whole category
+    for n in ast.walk(o):
+        if isinstance(n, ast.Continue):
+            lp = [p_ for p_ in parents(n) if isinstance(p_, (ast.For, ast.While))]
+            if lp and lp[0] is o:
+                early.append(n)
+    ctx.decide('M6', not early, m, o, 'no break/return inside the scan, no category skipped',
                'the scan over categories exits early: a longer specials sequence in a later '
                'category is never considered', construct='test_for_specials: early exit')
-    ifs = [n for n in ast.walk(o) if isinstance(n, ast.If)]
     found = False
-    for i in ifs:
-        for t, pol in [(x, True) for x in (i.test.values if isinstance(i.test, ast.BoolOp)
-                                          and isinstance(i.test.op, ast.And) else [i.test])]:
-            if isinstance(t, ast.Compare) and len(t.ops) == 1 and \
-                    isinstance(t.left, ast.Call) and call_name(t.left) == 'len':
-                found = True
-                strict = isinstance(t.ops[0], ast.Gt)
-                bestvar = t.comparators[0]
-                var = t.left.args[0]
-                # the body must update the best length with len(var) and the spec
-                upd_len = any(isinstance(s, ast.Assign) and unparse(s.targets[0]) == unparse(bestvar)
-                              and unparse(s.value) == 'len(%s)' % unparse(var) for s in i.body)
-                sw = any(isinstance(c, ast.Call) and call_name(c) == 'startswith'
-                         and unparse(call_recv(c)) == fn.args.args[1].arg
-                         and len(c.args) == 2 and unparse(c.args[0]) == unparse(var)
-                         and unparse(c.args[1]) == fn.args.args[2].arg
-                         for c in ast.walk(i.test))
-                ctx.decide('M6', strict and upd_len and sw, m, i,
-                           'strictly-longer test, best length updated, match tested with '
-                           's.startswith(chars, pos)',
-                           'best match is not replaced exactly by strictly longer matches at pos '
-                           '(strict=%s, length updated=%s, startswith(chars,pos)=%s): ties no '
-                           'longer go to the first category / a non-matching or shorter '
-                           'sequence can win' % (strict, upd_len, sw),
-                           construct='test_for_specials: ' + short(i.test))
+    if len(inner) == 1:
+        il = inner[0]
+        tv = il.target.elts[0] if isinstance(il.target, ast.Tuple) and il.target.elts else il.target
+        var = unparse(tv)
+        sname, pname = fn.args.args[1].arg, fn.args.args[2].arg
+        try:
+            cases = symex.Walker(want_exits=True).run_block(il.body)
+        except symex.TooManyPaths:
+            cases = []
+
+        def order(t, pol):
+            """(greater, smaller, polarity) of an ordering test, else None"""
+            if isinstance(t, ast.Compare) and len(t.ops) == 1:
+                l_, r_ = unparse(t.left), unparse(t.comparators[0])
+                op = t.ops[0]
+                if isinstance(op, ast.Gt):
+                    return l_, r_, pol
+                if isinstance(op, ast.LtE):
+                    return l_, r_, not pol
+                if isinstance(op, ast.Lt):
+                    return r_, l_, pol
+                if isinstance(op, ast.GtE):
+                    return r_, l_, not pol
+            return None
+        lenv = 'len(%s)' % var
+        swtxt = '%s.startswith(%s, %s)' % (sname, var, pname)
+        bestvar = None
+        for cs in cases:
+            for t, pol in cs.conds:
+                for a_, ap in symex._atoms(symex.expand(t, cs.env), pol):
+                    o_ = order(a_, ap)
+                    if o_ and lenv in (o_[0], o_[1]):
+                        other = o_[1] if o_[0] == lenv else o_[0]
+                        if other.isidentifier():
+                            bestvar = other
+        if bestvar is not None and cases:
+            found = True
+            n_upd, bad = 0, None
+            for cs in cases:
+                if cs.kind not in ('end', 'continue'):
+                    continue
+                atoms = [(a_, ap) for t, pol in cs.conds for a_, ap in symex._atoms(symex.expand(t, cs.env), pol)]
+                longer = any(order(a_, ap) == (lenv, bestvar, True) for a_, ap in atoms)
+                weak = any(order(a_, ap) == (bestvar, lenv, False) for a_, ap in atoms)    # len >= best
+                starts = any(ap and unparse(a_) == swtxt for a_, ap in atoms)
+                nv = cs.env.get(bestvar)
+                updated = isinstance(nv, ast.AST) and unparse(nv) != bestvar
+                if updated:
+                    n_upd += 1
+                    if not (longer and starts and unparse(symex.expand(nv, cs.env)) == lenv):
+                        bad = bad or (cs, 'the best match is replaced on the path [%s] with %s = %s '
+                                          '(strictly longer: %s, at least as long: %s, %s: %s)'
+                                      % (' & '.join(cs.cond_src())[:160], bestvar, short(nv), longer, weak,
+                                         swtxt, starts))
+                elif longer and starts:
+                    bad = bad or (cs, 'a strictly longer match at pos does not replace the best match on the '
+                                      'path [%s]' % ' & '.join(cs.cond_src())[:160])
+            ctx.decide('M6', bad is None and n_upd > 0, m, il,
+                       'best match replaced exactly on the paths with len(%s) > %s and %s (%d path(s)), '
+                       'best length updated to the new length' % (var, bestvar, swtxt, n_upd),
+                       ('best match is not replaced exactly by strictly longer matches at pos: %s: ties no '
+                        'longer go to the first category / a non-matching or shorter sequence can win'
+                        % bad[1]) if bad else 'no path replaces the best match',
+                       construct='test_for_specials: replacement of the best match')
     if not found:
         ctx.unknown('M6', m, o, 'length comparison not found')
     # initial best length is 0 and result var returned
